@@ -60,7 +60,9 @@ theorem Inv.upToDate {P : Program} (hP : P.WF) {s s' : St} {k : Key}
   obtain ⟨hval, hbk, hsigk⟩ := hi.validOk k hs hvs
   have hnf : inflight s k = false := by simp [inflight, hs]
   -- the stored signature is the current rule's, which the program computed at `lookup`
-  have hsok : SigOf P k (s.mem.res k).sig := by rw [hsigk]; exact hi.sigAtOk k (hi.scanReg k hs)
+  -- ... and the rule has just accepted the stored value
+  have hsok : Reusable P k (s.mem.res k).sig :=
+    ⟨by rw [hsigk]; exact hi.sigAtOk k (hi.scanReg k hs), s.env, _, hval⟩
   obtain ⟨gk0, fk⟩ := hi.good k hbk hnf
   have gk := gk0 hsok
   -- status facts
